@@ -234,15 +234,22 @@ class Enumerator(object):
                 guarded = []   # (arm, whole set) of earlier guarded arms: a later arm for the same variants runs only if the guard failed
                 info = canon.variants_of(ty)
                 allv = set(x[0] for x in info[1]) if info is not None else None
+                earlier_preds = []
                 for a in node['arms']:
                     pred, names = canon.pattern_pred(a['pat'], ty, earlier)
                     if pred == 'unreachable':
                         continue
+                    if pred == '_' and earlier_preds:
+                        # catch-all over an enum whose variants are not known here: everything the earlier arms left
+                        pred = 'not ' + ' | '.join(earlier_preds)
+                    own_pred = pred
                     w = canon.whole(a['pat'], ty)
                     # first-match semantics against earlier *guarded* arms: for the variants such an arm also
                     # covers, this arm runs only if that guard failed; for the others the guard was never asked
                     cells = [(pred, names, [])]
-                    for ga, gw in guarded:
+                    catch_all = w == 'ALL'
+                    seen_g = []
+                    for ga, gw, gpred in guarded:
                         nxt = []
                         for cpred, cnames, gs in cells:
                             gset = allv if gw == 'ALL' else gw
@@ -252,9 +259,17 @@ class Enumerator(object):
                                     nxt.append((canon.render(ty, inside), inside, gs + [ga]))
                                 if outside:
                                     nxt.append((canon.render(ty, outside), outside, gs))
+                            elif catch_all and cnames is None and (cpred == '_' or cpred.startswith('not ')) and gpred != '_':
+                                # variants unknown: what the guarded arm's pattern covers (its guard failed) / everything else
+                                nxt.append((gpred, None, gs + [ga]))
+                                rest = [q for q in earlier_preds + seen_g + [gpred]]
+                                nxt.append(('not ' + ' | '.join(dict.fromkeys(rest)), None, gs))
+                            elif cnames is None and cpred != gpred and not catch_all and gpred != '_' and gw != 'ALL' and gw is not None and w is not None and w != 'ALL' and not (gw & w):
+                                nxt.append((cpred, cnames, gs))
                             else:
                                 nxt.append((cpred, cnames, gs + [ga]))
                         cells = nxt
+                        seen_g.append(gpred)
                     for cpred, cnames, gs in cells:
                         ap = p.fork()
                         self.add_pat_cond(ap, v, cpred, cnames)
@@ -270,8 +285,10 @@ class Enumerator(object):
                             gt = self.leaf(a['guard'], ap)
                             ap.conds = canon.simplify(ap.conds + canon.cond(gt, True))
                         out.extend(self.run(a['body'], ap))
+                    if a.get('guard') is None and own_pred != '_' and not own_pred.startswith('not '):
+                        earlier_preds.append(own_pred)
                     if a.get('guard') is not None:
-                        guarded.append((a, w))
+                        guarded.append((a, w, canon.pattern_pred(a['pat'], ty, earlier)[0]))
                     elif w == 'ALL':
                         earlier.append(allv)
                     else:
